@@ -477,7 +477,14 @@ def _dedupe_links(m, ops):
 
 
 def enabled(m, cfg):
-    return _dedupe_links(m, _enabled(m, cfg))
+    ops = _dedupe_links(m, _enabled(m, cfg))
+    only = cfg.get("only")
+    if only is not None:
+        ops = [op for op in ops if op[0] in only]
+    pred = cfg.get("pred")
+    if pred is not None:
+        ops = [op for op in ops if pred(op)]
+    return ops
 
 
 def _enabled(m, cfg):
